@@ -19,7 +19,9 @@ sys.path.insert(0, os.path.dirname(HERE))
 from vf import replaydrv  # noqa: E402
 
 NUMS = [('0', Fraction(0)), ('1', Fraction(1)), ('1.0', Fraction(1)), ('1.10', Fraction(11, 10)), ('2', Fraction(2)), ('0.5', Fraction(1, 2)), ('100', Fraction(100))]
-STRS = [('""', ''), ('"a"', 'a'), ('"ab"', 'ab'), ('"b"', 'b'), ('"B"', 'B'), ('"ż"', 'ż')]
+# (strings are ordered by Unicode code points: a character of the upper Basic Multilingual Plane - U+FF21, U+FFFD - sorts BEFORE a supplementary
+# one - U+1F600, U+10000 -, which UTF-16 code units would order the other way round)
+STRS = [('""', ''), ('"a"', 'a'), ('"ab"', 'ab'), ('"b"', 'b'), ('"B"', 'B'), ('"ż"', 'ż'), ('"\uFF21"', '\uFF21'), ('"\U0001F600"', '\U0001F600'), ('"x\uFFFD"', 'x\uFFFD'), ('"x\U00010000"', 'x\U00010000')]
 DATES = [('date("2020-01-02")', datetime.date(2020, 1, 2)), ('date("2020-01-03")', datetime.date(2020, 1, 3)), ('date("2019-12-31")', datetime.date(2019, 12, 31)), ('date("2020-02-01")', datetime.date(2020, 2, 1))]
 YM = [('duration("P1Y")', 12), ('duration("P12M")', 12), ('duration("P1Y1M")', 13), ('duration("-P1M")', -1)]
 DT = [('duration("P1D")', 86400), ('duration("PT24H")', 86400), ('duration("PT1S")', 1), ('duration("-PT1S")', -1)]
